@@ -26,6 +26,8 @@ def op_label(op):
         return 'forward_only' + (':abort' if op.get('abort') else '')
     if k == 'set_mode':
         return 'set_mode:' + op['mode']
+    if k == 'perturb_net':
+        return 'perturb_net:' + op['style']
     if k == 'perturb_arch':
         return 'perturb_arch:' + op['style'] + (':' + op['write'] if op.get('write', 'copy') != 'copy' else '')
     return k
@@ -227,7 +229,7 @@ def run_twin(case, compare_sections=('params', 'rg', 'flags', 'grads'), probe_fo
             ref_dead = True
             break
         obs_s, exc_s = run(S, side_hook if mids else None)
-        if k in ('train_step', 'backward_only', 'forward_only', 'opt_step', 'perturb_arch'):
+        if k in ('train_step', 'backward_only', 'forward_only', 'opt_step', 'perturb_arch', 'perturb_net'):
             state_op_seen = True
         if obs_r.get('aborted'):
             bump('fault_abort_forward')
